@@ -128,6 +128,14 @@ CLAIMED = {
             "(validator, sequence-1) and must not take an address or orchestrator currently held by another validator; refusals write nothing; bindings stay injective and consistent across the three indexes; claims sent by an orchestrator are recorded as its validator's vote.",
             "Transaction-level signature checks are the ante handler's; fresh keys must be accepted (completeness is only required for never-used addresses).",
             "DESIGN.md §4 C17"),
+    "C20": ("fault_enumeration",
+            "property-based generation of Minter block histories (rapid) + exhaustive enumeration of restart points against a reference numbering; property-based testing of command validation",
+            "Per generated history (1..14 blocks, several bridge events per block, invalid commands, foreign multisends, edit-multisig with numeric/non-numeric payload) served by a scripted HTTP node, EVERY stored cursor "
+            "position x EVERY node height x EVERY acknowledged nonce is restarted through the real minter.GetLatestMinterBlockAndNonce and context.LoadStatus/Commit; the persisted cursor must equal the reference "
+            "(next event nonce = start + bridge events at or below last-checked block; batch and valset counters likewise) and the returned in-memory cursor. Command payloads (types, recipients in many spellings, "
+            "fee strings around the bound, negative, malformed, huge) must be accepted iff recipient valid for the type and fee a non-negative integer below amount less 1%.",
+            "The connector's main loop (package main: flag parsing, live RPC) is represented by its cursor invariant; the persisted state at a crash is the last Commit. One open finding (counters kept when stopping inside a multi-event block) is recorded and enumeration continues past it.",
+            "DESIGN.md §4 C20"),
 }
 
 NOT_YET = "check not built yet in this round (planned in DESIGN.md §4); not claimed until its machinery exists"
